@@ -244,12 +244,168 @@ func genInput(r *core.RNG) Input {
 	return in
 }
 
+// ---- several retained fields of ONE named struct type, some of them replaced ----
+//
+// Whether a field is copied by assignment or through the replacement's DeepCopyIntoAs is decided per FIELD (the replace
+// tag names a field), not per type: an origin with two or three fields of the same named struct type of which a
+// non-empty proper subset is replaced, in every order, with other fields in between.  kind 0: origin.Inner fields,
+// replacement = the hand-written example.com/m/rpl.R; kind 1: origin.T1 fields, replacement = the partial struct
+// generated for T1 by a second declaration of the same package.  mask bit i = the i-th same-type field is replaced.
+func sameTypeInput(r *core.RNG, kind, k, mask int) Input {
+	ft, to := named("origin", "Inner"), modPath+"/rpl.R"
+	if kind == 1 {
+		ft, to = named("origin", "T1"), "Y"
+	}
+	names := []string{"Spec", "LastApplied", "Status", "Meta"}
+	var fields []Field
+	var repl, omit []string
+	for i := 0; i < k; i++ {
+		if r.Chance(40) {
+			fields = append(fields, fld(fmt.Sprintf("B%d", i), core.Pick(r, []Ty{basic("int"), basic("string"), slice(basic("string")), named("time", "Time")}), genTag(r)))
+		}
+		fields = append(fields, fld(names[i], ft, core.Pick(r, []string{"", `json:"f,omitempty"`, `json:"spec"`})))
+		if mask&(1<<i) != 0 {
+			v := names[i] + ":" + to
+			if r.Bool() {
+				v += " " + core.Pick(r, []string{`json:"spec,omitempty"`, `json:"r"`, `yaml:"q" json:"q"`})
+			}
+			repl = append(repl, v)
+		} else if k >= 3 && r.Chance(15) {
+			omit = append(omit, names[i])
+		}
+	}
+	if r.Bool() {
+		fields = append(fields, fld("Tail", basic("bool"), ""))
+	}
+	in := Input{OriginPkg: "origin", LibPkg: "lib", Types: []OriginType{{Name: "T0", Fields: fields}},
+		Groups: []Group{{Specs: []Spec{{Name: "x", RHS: "sel", Origin: 0, Enabled: "plain", Omit: omit, Replace: repl}}}}}
+	if kind == 1 {
+		in.Types = append(in.Types, OriginType{Name: "T1", Fields: []Field{fld("X", basic("int"), `json:"x"`), fld("Digest", basic("string"), `json:"digest"`)}})
+		y := Spec{Name: "y", RHS: "sel", Origin: 1, Enabled: "plain"}
+		if r.Bool() {
+			y.Enabled, y.Omit = "keyonly", []string{"Digest"}
+		}
+		in.Groups = append(in.Groups, Group{Specs: []Spec{y}})
+	}
+	return in
+}
+
+func sameTypeInputs(r *core.RNG, tier string) []Input {
+	var out []Input
+	for kind := 0; kind < 2; kind++ {
+		for mask := 1; mask < 3; mask++ { // two fields, exactly one replaced, both orders
+			out = append(out, sameTypeInput(r, kind, 2, mask))
+		}
+	}
+	for mask := 1; mask < 7; mask++ { // three fields, every non-empty proper subset
+		if tier == "thorough" {
+			out = append(out, sameTypeInput(r, 0, 3, mask), sameTypeInput(r, 1, 3, mask))
+		} else {
+			out = append(out, sameTypeInput(r, mask%2, 3, mask))
+		}
+	}
+	if tier == "thorough" {
+		for kind := 0; kind < 2; kind++ {
+			for _, k := range []int{2, 3, 4} { // controls: none / all replaced; four fields
+				out = append(out, sameTypeInput(r, kind, k, 0), sameTypeInput(r, kind, k, 1<<k-1))
+			}
+			for i := 0; i < 8; i++ {
+				out = append(out, sameTypeInput(r, kind, 4, 1+r.Intn(14)))
+			}
+		}
+	}
+	return out
+}
+
+// ---- declarations that cannot be sources, enabled ONLY through a sub-key tag ----
+//
+// `+gengo:partialstruct:omit=…` or `:replace=…` alone enables the generator for a declaration just as the plain
+// `+gengo:partialstruct` line does (gengo.IsGeneratorEnabled; proper sources enabled that way generate).  A declaration
+// enabled that way that is not a struct (`type roleForUpdate origin.Role`, Role an int), a struct literal, or any other
+// right-hand side must be reported as an error too - alone and next to valid sources of the same package, which are
+// visited before or after it.
+func keyOnlyErrorInput(r *core.RNG, what, sub, neighbour int) Input {
+	in := Input{OriginPkg: "origin", LibPkg: "lib", Types: []OriginType{
+		{Name: "T0", Fields: []Field{fld("A", basic("int"), `json:"a"`), fld("Password", basic("string"), `json:"password"`), fld("Spec", named("origin", "Inner"), "")}}}}
+	bad := Spec{Name: "roleForUpdate", Enabled: "keyonly", Origin: 0}
+	switch what {
+	case 0: // defined from a named type that is not a struct
+		in.Types = append(in.Types, OriginType{Name: "Role", NonStruct: core.Pick(r, nonStructs)})
+		bad.RHS, bad.Origin = "sel", 1
+	case 1: // a struct, but a literal
+		bad.RHS = "lit"
+	default: // neither
+		bad.RHS, bad.Raw = "raw", core.Pick(r, rawRHS)
+	}
+	switch sub {
+	case 0:
+		bad.Omit = []string{core.Pick(r, []string{"Password", "A", "Nope"})}
+	case 1:
+		bad.Replace = []string{"Spec:" + modPath + "/rpl.R"}
+	default:
+		bad.Omit, bad.Replace = []string{"Password"}, []string{"Spec:" + modPath + "/rpl.R json:\"spec\""}
+	}
+	specs := []Spec{bad}
+	if neighbour != 0 {
+		ok := Spec{Name: "accountForUpdate", RHS: "sel", Origin: 0, Enabled: core.Pick(r, []string{"plain", "keyonly"}), Omit: []string{"Password"}}
+		if neighbour == 2 { // visited after the wrong declaration (names are visited in sorted order)
+			ok.Name = "zAccount"
+		}
+		specs = append(specs, ok)
+		if r.Bool() {
+			specs[0], specs[1] = specs[1], specs[0]
+		}
+	}
+	if len(specs) > 1 && r.Bool() {
+		in.Groups = []Group{{Specs: specs}}
+	} else {
+		for _, s := range specs {
+			in.Groups = append(in.Groups, Group{Specs: []Spec{s}})
+		}
+	}
+	return in
+}
+
+func keyOnlyErrorInputs(r *core.RNG, tier string) []Input {
+	var out []Input
+	k := 0
+	for what := 0; what < 3; what++ {
+		for sub := 0; sub < 3; sub++ {
+			if tier == "thorough" {
+				for nb := 0; nb < 3; nb++ {
+					out = append(out, keyOnlyErrorInput(r, what, sub, nb), keyOnlyErrorInput(r, what, sub, nb))
+				}
+				continue
+			}
+			if sub == 2 && what != 0 {
+				continue
+			}
+			out = append(out, keyOnlyErrorInput(r, what, sub, 0), keyOnlyErrorInput(r, what, sub, 1+k%2))
+			k++
+		}
+	}
+	return out
+}
+
 // the malformed / error stream: declarations that must be reported as errors
 func genErrorInput(r *core.RNG) Input {
 	in := genInput(r)
 	fl := in.flat()
 	s := fl[r.Intn(len(fl))].S
 	s.Enabled = "plain"
+	defer func() {
+		// enabled only through a sub-key tag (no plain +gengo:partialstruct line) in two cases of five
+		if r.Chance(40) {
+			s.Enabled = "keyonly"
+			if len(s.Omit) == 0 && len(s.Replace) == 0 {
+				if r.Bool() {
+					s.Omit = []string{core.Pick(r, []string{"A", "Password", "X1"})}
+				} else {
+					s.Replace = []string{"Spec:" + modPath + "/rpl.R"}
+				}
+			}
+		}
+	}()
 	switch r.Intn(4) {
 	case 0:
 		s.RHS = "lit"
@@ -408,6 +564,12 @@ func (prop) Generate(r *core.RNG, tier string) []json.RawMessage {
 	}
 	var out []json.RawMessage
 	for _, c := range corners() {
+		out = append(out, marshal(c))
+	}
+	for _, c := range sameTypeInputs(r.Fork(), tier) {
+		out = append(out, marshal(c))
+	}
+	for _, c := range keyOnlyErrorInputs(r.Fork(), tier) {
 		out = append(out, marshal(c))
 	}
 	for i := 0; i < n; i++ {
